@@ -17,6 +17,7 @@ mod c16;
 mod c06;
 mod c13;
 mod c08;
+mod c07;
 
 fn main() {
     let mode = std::env::args().nth(1).unwrap_or_default();
@@ -70,6 +71,7 @@ fn dispatch(mode: &str, line: &str) -> String {
         "c06" => c06::run(line),
         "c13" => c13::run(line),
         "c08" => c08::run(line),
+        "c07" => c07::run(line),
         "c17" => c13::run17(line),
         _ => format!("bad-mode {mode}"),
     }
